@@ -755,14 +755,38 @@ class CallMixin:
                     return AbsList(v.elem, self.list_minlen(v))
                 return Sym("tupleof", v)
             return Sym("call", RefV("builtins." + name), tuple(a), ())
+        if name == "dict.fromkeys" and a:
+            from .interp_expr import dict_key
+            keys = self.concrete_items(self.resolve_alt(a[0]))
+            val = a[1] if len(a) > 1 else NONE
+            if keys is not None and all(dict_key(k) is not None for k in keys):
+                d = PyDict()
+                d.created_in = self._frame_id()  # type: ignore[attr-defined]
+                for k in keys:
+                    d.items[dict_key(k)] = val
+                return d
+            return Sym("call", RefV("builtins.dict.fromkeys"), tuple(a), _kw(kwargs))
         if name == "dict":
+            from .interp_expr import dict_key
             d = PyDict()
             d.created_in = self._frame_id()  # type: ignore[attr-defined]
             if a and isinstance(a[0], PyDict):
                 d.items.update(a[0].items)
                 d.opaque_keys.extend(a[0].opaque_keys)
             elif a:
-                return Sym("call", RefV("builtins.dict"), tuple(a), _kw(kwargs))
+                pairs = self.concrete_items(self.resolve_alt(a[0]))
+                ok = pairs is not None
+                if ok:
+                    for pr in pairs:
+                        kv = self.concrete_items(pr)
+                        if kv is None or len(kv) != 2 or dict_key(kv[0]) is None:
+                            ok = False
+                            break
+                if not ok:
+                    return Sym("call", RefV("builtins.dict"), tuple(a), _kw(kwargs))
+                for pr in pairs:
+                    kv = self.concrete_items(pr)
+                    d.items[dict_key(kv[0])] = kv[1]
             for k, v in kwargs.items():
                 d.items[("c", k)] = v
             return d
